@@ -376,6 +376,37 @@ RebinWeightsArePartition(shape, d, sample) ==    \* per axis and output subscrip
         /\ \A t \in 1 .. Len(ws) : Lt(Zero, ws[t][2]) /\ ws[t][1] \in 0 .. (shape[a] - 1)
         /\ \A t, t2 \in 1 .. Len(ws) : t # t2 => ws[t][1] # ws[t2][1]
 
+(* ARGUMENT FORMS.  The specification speaks about VALUES; it does not depend on how the   *)
+(* caller types them.  An array of integral values may be handed over with any of these    *)
+(* dtypes (as the values fit), a width or a dimension as any of these scalar forms, and the *)
+(* specified outcome is the same: Expected takes neither.  (FormIndependent is therefore    *)
+(* true by construction; it is stated so that the harness' rotation of forms is explicit.)  *)
+ArrayDtypes == {"f8", "f4", "i8", "i4", "i2", "u2", "u1", "bool"}
+ScalarForms == {"int", "np.int64", "np.int32", "np.int16", "np.uint8", "0-d array"}
+DimsForms == {"tuple of int", "tuple of np.int64", "tuple of np.int32", "tuple of np.int16", "tuple of 0-d arrays",
+              "1-d ndarray", "list"}
+ExpectedFor(dt, form, fn, x, shape, w, flag, d) == Expected(fn, x, shape, w, flag, d)
+FormIndependent(fn, x, shape, w, flag, d) ==
+  \A dt \in ArrayDtypes : \A form \in ScalarForms \cup DimsForms :
+     ExpectedFor(dt, form, fn, x, shape, w, flag, d) = Expected(fn, x, shape, w, flag, d)
+(* Where the result has an integer type (smooth / rebin of integer data return the input   *)
+(* type) the exact mean or interpolated value is not representable: any rounding of the   *)
+(* value computed in floating point is accepted (truncating 199.99999999999997 gives 199   *)
+(* where the exact value is 200), i.e. the result must be at most 1 away from the exact    *)
+(* value per resampled axis (rebin rounds once per axis).  A wrap-around never is.         *)
+(* Selections (medians, SAMPLE, uniq) stay exact.                                          *)
+IntegerResultOK(got, exact, slack) == Le(RAbs(Sub(got, exact)), OfInt(slack))
+RebinSlack(shape, d) == Max(1, Cardinality({a \in DOMAIN shape : d[a] # shape[a]}))
+(* Integer grids are reached by scaling an enumerated array with a positive integer K      *)
+(* (so that e.g. uint8 data use the whole range 0..250): all four value maps commute with  *)
+(* that scaling.                                                                           *)
+Scale(K, s) == [k \in 1 .. Len(s) |-> Mul(OfInt(K), s[k])]
+SmoothScales(r, s, K, w, edge) == Smooth(Scale(K, s), w, edge) = Scale(K, r)
+MedianScales(m, a, even, K) == K > 0 => Median(Scale(K, a), even) = Mul(OfInt(K), m)
+RunMed1Scales(r, a, w, K) == K > 0 => RunMedian1(Scale(K, a), w) = Scale(K, r)
+RunMed2Scales(r, img, shape, w, K) == K > 0 => RunMedian2(Scale(K, img), shape, w) = Scale(K, r)
+RebinScales(r, v, K, shape, d, sample) == Rebin(Scale(K, v), shape, d, sample) = Scale(K, r)
+
 (* ---- named deviation (see DESIGN.md section 6) ---- *)
 (* D-C14-1: the expansion position i*d0/d is computed as i*(d0/d) in floating point; when *)
 (* d/d0 has an inexact reciprocal (first: 49) the product can fall just below the integer *)
@@ -390,4 +421,16 @@ Dev_FloorBelowExplains(got, s, d) ==
           LET i == j - 1
               fp == (i * d0) \div d
           IN got[j] = At(s, fp) \/ ((i * d0) % d = 0 /\ fp >= 1 /\ got[j] = At(s, fp - 1))
+
+(* D-C14-2: smooth(edge_truncate) multiplies the edge sample by the number of missing      *)
+(* samples in the sample's own integer type; for 8/16-bit data the product wraps around.   *)
+(* Affected calls: integer data of a small type, edge truncation, a non-interior element.  *)
+Dev_SmallIntEdgeWrap(dt, w, edge, n, k) ==
+  dt \in {"u1", "u2", "i2"} /\ edge /\ OddWidth(w) >= 3 /\ ~IsInterior(k - 1, n, OddWidth(w) \div 2)
+(* D-C14-3: rebin's interpolation subtracts neighbouring samples in the input's integer    *)
+(* type; unsigned differences of decreasing neighbours (and 16-bit differences beyond the  *)
+(* type's range) wrap around.  Affected calls: small integer data, no SAMPLE, an expanding *)
+(* axis.                                                                                   *)
+Dev_SmallIntDifferenceWrap(dt, shape, d, sample) ==
+  dt \in {"u1", "u2", "i2"} /\ ~sample /\ \E a \in DOMAIN shape : AxisKind(shape[a], d[a]) = "expand"
 =============================================================================
